@@ -91,6 +91,14 @@ def outflowT (x : Ix → Signal K) (k : Nat) : TCpt K → ExpPoly K
   | (.TR _ n2 m _, _) => twoTermT n2 0 k (x (.br m)).post
   | (.Y n1 n2 y, _) => twoTermT n1 n2 k (smul y (vpost x n1 n2))
   | (.Open _ _, _) => []
+  | (.TPA n1 n2 n3 n4 m _ _ a21 a22, _) =>
+      twoTermT n1 n2 k (x (.br m)).post ++
+        twoTermT n3 n4 k (subP (smul a21 (vpost x n1 n2)) (smul a22 (x (.br m)).post))
+  | (.TPY n1 n2 n3 n4 y11 y12 y21 y22, _) =>
+      twoTermT n3 n4 k (smul y11 (vpost x n3 n4) ++ smul y12 (vpost x n1 n2)) ++
+        twoTermT n1 n2 k (smul y21 (vpost x n3 n4) ++ smul y22 (vpost x n1 n2))
+  | (.SP _ _ n3 _ m _ _ _, _) => twoTermT n3 0 k (x (.br m)).post
+  | (.HY n1 n2 m _ _ _ _ _ _, _) => twoTermT n1 n2 k (x (.br m)).post
 
 /-- voltage induced by the coupled inductors: Σ M · D i'  (each partner current seen from its own state at 0⁻) -/
 def mutualDropT (x : Ix → Signal K) (coup : List (Nat × K × Option K)) : ExpPoly K :=
@@ -112,6 +120,15 @@ def lawsT (x : Ix → Signal K) : TCpt K → List (Nat × ExpPoly K)
       [(m1, vpost x n1 n2 ++ smul r (x (.br m1)).post), (m2, subP (vpost x n3 n4) (smul r (x (.br m2)).post))]
   | (.AM n1 n2 m, _) => [(m, vpost x n1 n2)]
   | (.TR n1 n2 m a, _) => [(m, subP (voltT x n2).post (smul a (voltT x n1).post))]
+  | (.TPA n1 n2 n3 n4 m a11 a12 _ _, _) =>
+      [(m, subP (vpost x n3 n4) (subP (smul a11 (vpost x n1 n2)) (smul a12 (x (.br m)).post)))]
+  | (.HY n1 n2 m n3 n4 mc y isc h, _) =>
+      -- `y` read as a constant conductance; `isc` as an impulse of that weight at t = 0
+      [(m, subP (vpost x n1 n2) (smul h (x (.br mc)).post)),
+       (mc, subP (x (.br mc)).post (subP (smul y (vpost x n3 n4)) [.dl isc 0 0]))]
+  | (.SP n1 n2 n3 n4 m c1 c2 c4, _) =>
+      [(m, subP (voltT x n3).post
+             (smul c1 (voltT x n1).post ++ smul c2 (voltT x n2).post ++ smul c4 (voltT x n4).post))]
   | _ => []
 
 /-- residual of Kirchhoff's current law at node `k` -/
